@@ -1,12 +1,13 @@
 #!/usr/bin/env python3
 """False-alarm audit (DESIGN.md 5a / 9.4): behaviour-preserving rewrites of ensure_tables() must stay quiet.
 
-  audit_variants.py [mutex|call_once ...]
+  audit_variants.py [mutex|call_once|condvar ...]
 
 Each variant is built in a scratch copy of /repo under $TMPDIR (removed afterwards): the winner's initialisation body
 (with its hook sites) is kept verbatim, only the way other threads wait for it changes -
   mutex     : double-checked state test around a std::mutex
   call_once : std::call_once (the test-only reset re-arms the flag)
+  condvar   : the claim is taken under a std::mutex, waiters sleep on a std::condition_variable until the winner notifies
 so that simulated threads really block inside the primitive and sim/blockwrap.cpp has to turn that into yields.
 C13 quick is run against the copy; expected: exit 0, no VIOLATION line. Not part of any registered check.
 """
